@@ -78,7 +78,9 @@ def R(id, entry, enforce=None, replace=(), loops=False, props=('C14', 'C20'), **
     d.update(kw)
     UNIT['runs'].append(d)
 
-R('enh_decode_len8', 'h_enh_decode', None, unwind=34, defines=['DEC_MAXLEN=8'], props=('C14', 'C20'), cost=300, timeout=1500,
+R('enh_decode_len6', 'h_enh_decode', None, unwind=34, defines=['DEC_MAXLEN=6'], props=('C14', 'C20'), cost=300, timeout=1500,
+  bounded='buffer length <= 6 bytes per call (the transport buffer holds up to 32)')
+R('enh_decode_len8', 'h_enh_decode', None, unwind=34, defines=['DEC_MAXLEN=8'], props=('C14', 'C20'), cost=600, timeout=3000, tier='thorough',
   bounded='buffer length <= 8 bytes per call (the transport buffer holds up to 32)')
 R('enh_decode_len32', 'h_enh_decode', None, unwind=34, props=('C14', 'C20'), cost=3000, timeout=7000, tier='thorough')
 R('enh_encode', 'h_enh_encode', None, unwind=3, props=('C14', 'C20'), cost=5)
